@@ -3,11 +3,11 @@ package main
 func init() {
 	register(Harness{
 		Prop: "C03", Pkg: "server/smtp", Func: "VerifC03Machine",
-		Quick:    [][]int64{{3, 1, 0}, {5, 0, 0}, {4, 0, 1}},
-		Thorough: [][]int64{{4, 1, 1}, {7, 0, 1}, {5, 1, 0}},
+		Quick:    [][]int64{{0, 3, 1, 0}, {0, 4, 0, 0}, {3, 5, 0, 0}, {4, 3, 0, 1}, {5, 3, 0, 1}},
+		Thorough: [][]int64{{0, 4, 1, 1}, {0, 6, 0, 1}, {1, 4, 1, 0}, {3, 6, 0, 1}, {3, 4, 1, 1}, {4, 5, 0, 1}, {5, 5, 0, 1}, {2, 5, 1, 0}},
 		Unwind:   60,
 		Desc:     "real smtp.startSession loop over k scripted client steps from a menu of valid/out-of-order/garbled lines, then EOF; ghost automaton on reply codes",
-		Bounds:   "params (k steps, full menu?, cut last step?); symbolic: line selectors, store failure, MaxRecipients in {1,2}, DefaultAccept, cut position",
+		Bounds:   "params (concrete prelude number, k symbolic steps, full menu?, cut last step?); symbolic: line selectors, store failure, MaxRecipients in {1,2}, DefaultAccept, cut position",
 		Assumes:  []string{"textproto.Conn modelled by zzvrf.Model* over a scripted connection (natively: real textproto over the same in-memory conn)", "menu lines are concrete: the MAIL argument grammar (regexp) is evaluated on concrete lines only"},
 	})
 }
